@@ -24,6 +24,52 @@ fn oob_step<A: Cx>(d: &mut Drv<A>, n: usize) -> Value {
     }
 }
 
+fn limbs(x: u64) -> Value {
+    json!([x & 0xffff, (x >> 16) & 0xffff, (x >> 32) & 0xffff, x >> 48])
+}
+
+/// Positions far beyond the end of the slice `src` of `n` symbols: powers of two up to usize::MAX and,
+/// above all, positions whose BIT offset (position x width) wraps around 2^64 back into the sequence.
+fn far_probes<A: Cx>(d: &mut Drv<A>, src: &Value, n: usize) {
+    let w = u64::from(A::BITS);
+    // inverse of the odd part of w modulo 2^64 (Newton iteration)
+    let t = w.trailing_zeros();
+    let odd = w >> t;
+    let mut inv: u64 = odd;
+    for _ in 0..6 {
+        inv = inv.wrapping_mul(2u64.wrapping_sub(odd.wrapping_mul(inv)));
+    }
+    let mut far: Vec<u64> = vec![1 << 31, (1 << 32) + 1, 1 << 62, 1 << 63, (1 << 63) + 1, u64::MAX - 1, u64::MAX];
+    // i with i*w = m (mod 2^64) for small bit offsets m inside the sequence
+    for m in [0u64, w, 1, (n as u64 / 2) * w, (n as u64).saturating_sub(1) * w] {
+        if m % (1 << t) == 0 {
+            let base = (m >> t).wrapping_mul(inv);
+            for hi in [0u64, 1, 2] {
+                // adding multiples of 2^(64-t) does not change i*w modulo 2^64
+                let i = if t == 0 { base } else { base.wrapping_add(hi << (64 - t)) };
+                far.push(i);
+            }
+        }
+    }
+    far.retain(|&i| i >= 1 << 31);
+    far.sort();
+    far.dedup();
+    let small = [0u64, 1, n as u64 / 2, n as u64];
+    for (k, &i) in far.iter().enumerate() {
+        for how in ["get", "nth", "idx", "rf"] {
+            d.emit(json!({"op": "far", "src": src, "how": how, "a": limbs(i), "b": limbs(0)}));
+        }
+        let a = small[k % small.len()];
+        for how in ["r", "ri", "rt", "rti"] {
+            d.emit(json!({"op": "far", "src": src, "how": how, "a": limbs(a), "b": limbs(i)}));
+            // both bounds far, a few symbols apart
+            if i < u64::MAX - 4 {
+                d.emit(json!({"op": "far", "src": src, "how": how, "a": limbs(i), "b": limbs(i + 3)}));
+            }
+        }
+    }
+}
+
 pub fn run<A: Cx>(d: &mut Drv<A>, scale: usize) {
     let w = A::BITS as usize;
     let lens = boundary_lens(w);
@@ -38,6 +84,12 @@ pub fn run<A: Cx>(d: &mut Drv<A>, scale: usize) {
             {
                 let p = probes(n);
                 d.emit(json!({"op": "obs", "src": {"base": "reg", "r": r, "path": [], "acc": "seq"}, "gets": p, "nths": p}));
+            }
+            if i % 3 == 0 && n > 0 {
+                far_probes(d, &json!({"base": "reg", "r": r, "path": []}), n);
+                if n > 4 {
+                    far_probes(d, &json!({"base": "reg", "r": r, "path": [step("r", 1, n - 1)]}), n - 2);
+                }
             }
             for _ in 0..6 {
                 let mut src = d.rand_src(r);
